@@ -91,13 +91,14 @@ def handle : String → Handler
         | some arr => " ".intercalate (arr.map showRat)
         | none => "error"),
       showOptNat (callReplicateIncongruence thr bt)])
-  | "tr.relabel", nlS :: toks => do
+  | "tr.relabel", naS :: nlS :: toks => do
+    let nAllele : Option Nat ← if naS = "none" then some none else (parseNat? naS).map some
     let nl ← parseNat? nlS
     let (ls, rest) ← takeN nl toks
     let labels ← parseNats? ls
     let (t, _, rest) ← parseCallTrace rest
     if rest ≠ [] then none else
-    match relabel labels t with
+    match relabel labels nAllele t with
     | some (t', na) => some s!"{na};{showNats (t'.flatten.flatten)}"
     | none => some "error"
   | "tr.ped", idxS :: c :: s :: ns :: mp :: toks => do
